@@ -37,7 +37,9 @@ RECURSIVE Gcd(_, _)
 Gcd(a, b) == IF b = 0 THEN a ELSE Gcd(b, a % b)
 
 (* ---------------------------------------------------------------- exact rationals <<num, den>>, den > 0 *)
-Norm(q) == LET g == Gcd(IAbs(q[1]), q[2]) IN IF g <= 1 THEN q ELSE <<q[1] \div g, q[2] \div g>>
+Norm(q) == LET p == IF q[2] < 0 THEN <<0 - q[1], 0 - q[2]>> ELSE q        \* keep den > 0 (a normal frequency above 1 makes 1 - n negative)
+               g == Gcd(IAbs(p[1]), p[2])
+           IN IF g <= 1 THEN p ELSE <<p[1] \div g, p[2] \div g>>
 Rat(n, d) == Norm(<<n, d>>)
 RLess(a, b) == a[1] * b[2] < b[1] * a[2]
 RLeq(a, b) == a[1] * b[2] <= b[1] * a[2]
